@@ -1,9 +1,15 @@
 package checks
 
 import (
+	"encoding/hex"
 	"fmt"
+	"net/url"
+	"sort"
+	"strconv"
+	"strings"
 
 	"github.com/kstenerud/go-concise-encoding/ce"
+	"github.com/kstenerud/go-concise-encoding/ce/events"
 	"github.com/kstenerud/go-concise-encoding/configuration"
 
 	"verifharness/ev"
@@ -15,58 +21,107 @@ func init() {
 	fw.Register(&fw.Check{
 		ID:    "C06",
 		Level: "exploration",
-		Rule: "case = generated rules-valid stream (no custom types, no remote references, acyclic backward references only) encoded as a CBE or CTE document that the decoder+rules accept; " +
+		Rule: "case = rules-valid stream (directed probes first, then generated; no custom types, no remote references, no cyclic references; generated streams use backward references only, " +
+			"forward references are covered by directed probes) encoded as a CBE or CTE document that the decoder+rules accept; " +
 			"ce.UnmarshalFrom*Document(doc, nil) must return no error; the result is marshaled again with the same codec, decoded, and its canonical view must equal the original's after " +
-			"{records -> maps with the record type's keys, references substituted by their targets, markers/comments/padding dropped, maps unordered, numbers by exact value, NaN elements by kind}. " +
+			"{records -> maps with the record type's keys, references substituted by their targets, markers/comments/padding dropped, maps unordered, numbers by exact value, NaN elements by kind, " +
+			"float16 array elements by exact value (they come back as a float32 array: Go has no 16-bit float type)}. " +
 			"Non-trivial = >=1 container and >=3 values; distinct = distinct source documents.",
-		Assumptions: []string{"the harness's canonical view defines 'same data'", "custom types and remote references are excluded (no builder exists for custom types; remote references legitimately come back as resource IDs)"},
-		Cases:       func(tier string) int { return 8 + tierN(tier, 3000, 80000) },
-		Run:         runC06,
+		Assumptions: []string{"the harness's canonical view defines 'same data'",
+			"custom types and remote references are excluded (no builder exists for custom types; remote references legitimately come back as resource IDs)",
+			"a float16 array and a float32 array with the same element values are the same data (numbers are compared by value, not by encoding width)",
+			"cyclic references are excluded (their targets cannot be substituted in a finite document)"},
+		Cases: func(tier string) int { return 2*len(c06Probes) + tierN(tier, 3000, 80000) },
+		Run:   runC06,
 		Floors: func(string) map[string]int64 {
-			return map[string]int64{"untyped_unmarshals": 1000, "remarshal_compared": 500, "in.ev.mark": 1, "in.ev.ref": 1, "in.ev.record": 1, "in.ev.node": 1, "in.ev.edge": 1}
+			return map[string]int64{"untyped_unmarshals": 1000, "remarshal_compared": 500, "in.ev.mark": 1, "in.ev.ref": 1, "in.ev.record": 1, "in.ev.node": 1, "in.ev.edge": 1,
+				"directed_probes": int64(2 * len(c06Probes)), "in.forward-ref": 1, "in.time.date": 1, "in.time.time": 1, "in.time.timestamp": 1,
+				"in.arr.bit": 1, "in.arr.uid": 1, "in.arr.float16": 1, "in.rid": 1}
 		},
 	})
 }
 
-func c06Directed(idx int) []ev.Event {
-	s := func(x string) ev.Event { return ev.Event{K: ev.STRARR, AT: 1, S: x} }
-	wrap := func(e ...ev.Event) []ev.Event {
-		return append(append([]ev.Event{{K: ev.BD}, {K: ev.VER}}, e...), ev.Event{K: ev.ED})
+// c06Probes are directed documents (CTE text, decoded to events without rules and then treated like a
+// generated stream, so each is tried as CBE and as CTE). One per failure class found on the tree this check
+// was developed against (all repaired or known), plus boundary cases. The probes named in KNOWN_FINDINGS.txt
+// must stay: they make every known signature appear on every run.
+var c06Probes = []string{
+	// edges (known finding contains-edge)
+	`@("a" 1 "b")`,
+	`[@("a" null []) 2]`,
+	// nodes, markers and references in nodes
+	`("root" (1) true)`,
+	`{"k"=&m:[7] "r"=$m}`,
+	`[&a:"marked" ($a $a)]`,
+	`(&a:1.5 2 $a)`,
+	`[(&a:"x" $a) $a]`,
+	`(&a:[1] &b:{1=2} $a $b)`,
+	`[&a:1 &b:[2] &c:{"x"=3} &d:-9223372036854775809 $a $b $c $d {$d=$c} $a]`,
+	// records: two record types, non-string keys, the same record type used twice
+	"@r<\"x\" \"y\">\n[@r{1 null} @r{[] \"v\"}]",
+	"@a<\"p\" \"q\">\n@b<\"s\">\n[@a{1 2} @b{3} @a{4 5}]",
+	"@a<\"p\" d30b33f5-19ca-2649-9e99-6360c7608011 2020-01-01 17 true>\n@a{1 2 3 4 5}",
+	`[&r:@("a" "b" &c:3) $c]`,
+	// marker as map key and a reference to it
+	`{&k:"key"=1 "other"=$k}`,
+	// integers at the int64/uint64 boundaries, negative zero
+	`[-9223372036854775808 -9223372036854775809 18446744073709551615 -18446744073709551615 -0 {-0=1}]`,
+	// dates, times of day, and timestamps that time.Time cannot hold unchanged
+	`[2095-04-20 -86745-12-21 18:31:21 13:30:60.999999999/L 07:50:43/Asia/Tokyo 01:02:03+0130 01:02:03/1.50/-2.25]`,
+	`[2020-01-01/23:59:60 2020-01-01/10:00:00+0230 2020-01-01/10:00:00-1100 2020-01-01/10:00:00/E/Berlin 2021-03-28/02:30:00/Europe/Berlin 2020-01-01/10:00:00/1.00/2.00 2020-01-01/10:00:00/L 2020-01-01/10:00:00]`,
+	// bit and UID arrays
+	`[@b[010110000010011100111011110111] @b[] @b[1] @b[00000000] @b[111111111]]`,
+	`[@uid[2f2c3c9f-c825-573f-a3e5-8af37a3fd162 a2c916e7-0b9d-64be-da9d-8c6e8b6531bf] @uid[]]`,
+	`{2f2c3c9f-c825-573f-a3e5-8af37a3fd162=1 a2c916e7-0b9d-64be-da9d-8c6e8b6531bf=2 "s"=3}`,
+	// float16 arrays
+	`[@f16[1.5 -2 0 1e10] @f16[]]`,
+	`[@f16[snan 1.5 nan] @f32[snan 1.5 nan] @f64[snan nan]]`,
+	// resource IDs: plain, not parseable by net/url, and changed by net/url
+	`[@"https://example.com/a?b=c#d" @"a:b/c" @":x" @"100%" @"x\[1f]y" @"mailto:me@example.com"]`,
+	`@"https://example.com/ß"`,
+	`[1 @"  x  ~;"]`,
+	// forward references
+	`[$a &a:1]`,
+	`{"x"=$a "y"=&a:[1 2]}`,
+	`[(1 $a) &a:5]`,
+	`[($a 1) &a:5]`,
+}
+
+// c06ProbeEvents decodes a probe's CTE text (without rules: the events are then validated like a generated stream).
+func c06ProbeEvents(text string) ([]ev.Event, error) {
+	res := decodeDoc(ce.NewCTEDecoder(configuration.New()), []byte("c0\n"+text), configuration.New(), false)
+	if res.Panic != nil {
+		return nil, fmt.Errorf("panic: %v", res.Panic)
 	}
-	switch idx {
-	case 0:
-		return wrap(ev.Event{K: ev.EDGE}, s("a"), ev.Event{K: ev.PINT, U: 1}, s("b"), ev.Event{K: ev.END})
-	case 1:
-		return wrap(ev.Event{K: ev.LIST}, ev.Event{K: ev.EDGE}, s("a"), ev.Event{K: ev.NULL}, ev.Event{K: ev.LIST}, ev.Event{K: ev.END}, ev.Event{K: ev.END}, ev.Event{K: ev.END})
-	case 2:
-		return wrap(ev.Event{K: ev.NODE}, s("root"), ev.Event{K: ev.NODE}, ev.Event{K: ev.PINT, U: 1}, ev.Event{K: ev.END}, ev.Event{K: ev.TRUE}, ev.Event{K: ev.END})
-	case 3:
-		return wrap(ev.Event{K: ev.MAP}, s("k"), ev.Event{K: ev.MARK, B: []byte("m")}, ev.Event{K: ev.LIST}, ev.Event{K: ev.PINT, U: 7}, ev.Event{K: ev.END}, s("r"), ev.Event{K: ev.REF, B: []byte("m")}, ev.Event{K: ev.END})
-	case 4:
-		return wrap(ev.Event{K: ev.LIST}, ev.Event{K: ev.MARK, B: []byte("a")}, s("marked"), ev.Event{K: ev.NODE}, ev.Event{K: ev.REF, B: []byte("a")}, ev.Event{K: ev.REF, B: []byte("a")}, ev.Event{K: ev.END}, ev.Event{K: ev.END})
-	case 5:
-		return append([]ev.Event{{K: ev.BD}, {K: ev.VER}, {K: ev.RECTYPE, B: []byte("r")}, s("x"), s("y"), {K: ev.END},
-			{K: ev.LIST}, {K: ev.RECORD, B: []byte("r")}, {K: ev.PINT, U: 1}, {K: ev.NULL}, {K: ev.END}, {K: ev.RECORD, B: []byte("r")}, {K: ev.LIST}, {K: ev.END}, s("v"), {K: ev.END}, {K: ev.END}}, ev.Event{K: ev.ED})
-	case 6:
-		return wrap(ev.Event{K: ev.MAP}, ev.Event{K: ev.MARK, B: []byte("k")}, s("key"), ev.Event{K: ev.PINT, U: 1}, s("other"), ev.Event{K: ev.REF, B: []byte("k")}, ev.Event{K: ev.END})
-	}
-	return wrap(ev.Event{K: ev.LIST}, ev.Event{K: ev.NINT, U: 1 << 63}, ev.Event{K: ev.PINT, U: 1<<64 - 1}, ev.Event{K: ev.END})
+	return res.Log, res.Err
 }
 
 func runC06(c *fw.Ctx, idx int) {
 	cfg := configuration.New()
 	cte := idx%2 == 1
 	var in []ev.Event
-	if idx < 16 {
-		in = c06Directed(idx / 2)
+	if idx < 2*len(c06Probes) {
+		var err error
+		in, err = c06ProbeEvents(c06Probes[idx/2])
+		if err != nil {
+			c.Eval()
+			c.Fail("directed-probe-not-decodable", map[string]interface{}{"probe": c06Probes[idx/2], "err": err.Error()})
+			return
+		}
+		c.Inc("directed_probes")
 	} else {
 		o := cbeStreamOpts(c)
 		o.CustomBinary, o.CustomText, o.RemoteRef = false, false, false
 		o.Comments = cte
 		in = gen.Stream(c.Rng, o)
 	}
-	a, rej, _ := throughRules(in, cfg)
+	a, rej, why := throughRules(in, cfg)
 	if rej >= 0 {
+		if idx < 2*len(c06Probes) {
+			c.Eval()
+			c.Fail("directed-probe-rejected-by-rules", map[string]interface{}{"probe": c06Probes[idx/2], "why": fmt.Sprint(why)})
+			return
+		}
 		c.Inc("generated_stream_rejected_by_rules")
 		return
 	}
@@ -111,10 +166,18 @@ func runC06(c *fw.Ctx, idx int) {
 	}
 	c.Inc("untyped_unmarshals")
 	featureCounts(c, "in.", src.Log)
+	c06FeatureCounts(c, src.Log)
 	if nontrivialStream(src.Log) {
 		c.Distinct(codec + docString(doc, cte))
 	}
 	if err != nil {
+		if region == "contains-edge" {
+			// The edge builder is finished by its third component, so the edge's end-container event goes to
+			// whatever builder lies below it and the stack is out of step from there on: the error text depends
+			// on what follows the edge, not on a separate defect, so it is not part of the signature.
+			c.Fail("untyped-unmarshal-error@contains-edge", detail(map[string]interface{}{"err": err.Error()}))
+			return
+		}
 		c.Fail("untyped-unmarshal-error@"+region+":"+errClass(err), detail(map[string]interface{}{"err": err.Error()}))
 		return
 	}
@@ -145,14 +208,13 @@ func runC06(c *fw.Ctx, idx int) {
 		c.Fail("decoded-log-malformed", detail(map[string]interface{}{"errs": fmt.Sprint(e0, e1)}))
 		return
 	}
+	if n := c06WidenFloat16Arrays(c0, o); n > 0 {
+		c.Count("allowance.float16-array-compared-as-float32", int64(n))
+	}
 	c.Inc("remarshal_compared")
 	if path, desc := ev.Diff(c0, c1); path != "" {
-		sig := mismatchSig(c0, c1, path, desc)
-		x, y := ev.FindFirstDiffNodes(c0, c1)
-		if s := numMismatchSig(src.Log, x, y); s != "" {
-			sig = s
-		}
-		c.Fail(sig+"@"+region, detail(map[string]interface{}{"value": gen.Render(out), "doc2": docString(doc2, cte), "path": path, "diff": desc}))
+		sig, explained := c06ClassifyMismatch(src.Log, c0, c1, o)
+		c.Fail(sig+"@"+region, detail(map[string]interface{}{"value": gen.Render(out), "doc2": docString(doc2, cte), "path": path, "diff": desc, "known_losses_present": explained}))
 		return
 	}
 	if c.WantSample() && nontrivialStream(src.Log) {
@@ -167,4 +229,178 @@ func c06Region(log []ev.Event) string {
 		}
 	}
 	return "general"
+}
+
+// c06FeatureCounts counts the input features whose untyped building was found defective (floors keep them covered).
+func c06FeatureCounts(c *fw.Ctx, log []ev.Event) {
+	seen := map[string]bool{}
+	marked := map[string]bool{}
+	for _, e := range log {
+		switch e.K {
+		case ev.MARK:
+			marked[string(e.B)] = true // registered early: a reference inside its own marked object would be cyclic and is never generated
+		case ev.REF:
+			if !marked[string(e.B)] {
+				seen["in.forward-ref"] = true
+			}
+		case ev.TIME:
+			seen["in.time."+[]string{"date", "time", "timestamp"}[e.T.Type]] = true
+		case ev.ARR, ev.ABEGIN:
+			switch e.AT {
+			case events.ArrayTypeBit:
+				seen["in.arr.bit"] = true
+			case events.ArrayTypeUID:
+				seen["in.arr.uid"] = true
+			case events.ArrayTypeFloat16:
+				seen["in.arr.float16"] = true
+			case events.ArrayTypeResourceID:
+				seen["in.rid"] = true
+			}
+		case ev.STRARR:
+			if e.AT == events.ArrayTypeResourceID {
+				seen["in.rid"] = true
+			}
+		}
+	}
+	for k := range seen {
+		c.Inc(k)
+	}
+}
+
+// c06WidenFloat16Arrays rewrites every float16 array of a canonical tree to the float32 array with the same
+// element values (a float16 is the upper half of a float32) and returns how many it rewrote.
+func c06WidenFloat16Arrays(n *ev.Node, o ev.Opts) int {
+	count := 0
+	if n.Tag == "array" && strings.HasPrefix(n.Val, "f16:") {
+		parts := strings.SplitN(n.Val, ":", 3)
+		if data, err := hex.DecodeString(parts[2]); err == nil && len(parts) == 3 && len(data)%2 == 0 {
+			wide := make([]byte, 0, len(data)*2)
+			for i := 0; i+1 < len(data); i += 2 {
+				wide = append(wide, 0, 0, data[i], data[i+1])
+			}
+			// through Canon again so that NaN elements get the canonical float32 pattern of their kind
+			log := []ev.Event{{K: ev.BD}, {K: ev.VER}, {K: ev.ARR, AT: events.ArrayTypeFloat32, U: uint64(len(data) / 2), B: wide}, {K: ev.ED}}
+			if d, err := ev.Canon(log, o); err == nil && len(d.Kids) == 1 && d.Kids[0].Tag == "array" {
+				n.Val = d.Kids[0].Val
+				count++
+			}
+		}
+	}
+	for _, k := range n.Kids {
+		count += c06WidenFloat16Arrays(k, o)
+	}
+	return count
+}
+
+// c06ClassifyMismatch names a mismatch between the source tree c0 and the re-marshaled tree c1.
+// Three representation losses of the untyped value are known; each is a deterministic rewrite of the
+// source document, so they are applied to the source and the comparison is repeated: if nothing else
+// differs the signature names the (first) known loss, otherwise the signature is that of the first
+// difference that the known losses do not explain (a known loss never hides another difference).
+func c06ClassifyMismatch(log []ev.Event, c0, c1 *ev.Node, o ev.Opts) (sig string, present []string) {
+	generic := func(a *ev.Node) string {
+		path, desc := ev.Diff(a, c1)
+		sig := mismatchSig(a, c1, path, desc)
+		x, y := ev.FindFirstDiffNodes(a, c1)
+		if s := numMismatchSig(log, x, y); s != "" {
+			sig = s
+		}
+		return sig
+	}
+	orig := generic(c0) // before c0 is rewritten below
+	t := c0
+	if log2, n := c06NullForwardRefNodeValues(log); n > 0 {
+		if t2, err := ev.Canon(log2, o); err == nil {
+			c06WidenFloat16Arrays(t2, o)
+			t = t2
+			present = append(present, "forward-ref-as-node-value-lost")
+		}
+	}
+	if c06RespellRIDs(t) > 0 {
+		present = append(present, "rid-respelled-by-net-url")
+	}
+	if c06UIDArraysAsLists(t) > 0 {
+		present = append(present, "uid-array-remarshaled-as-uid-list")
+	}
+	if len(present) == 0 {
+		return orig, nil
+	}
+	c06SortMaps(t)
+	if path, _ := ev.Diff(t, c1); path == "" {
+		return "mismatch:" + present[0], present
+	}
+	return generic(t), present
+}
+
+// A forward reference as the value of a node is filled in after the node has been copied into its parent,
+// so the node keeps a null value: replace such references by null in the source log.
+func c06NullForwardRefNodeValues(log []ev.Event) ([]ev.Event, int) {
+	out := make([]ev.Event, 0, len(log))
+	marked := map[string]bool{}
+	afterNode := false
+	n := 0
+	for _, e := range log {
+		switch e.K {
+		case ev.COM, ev.PAD:
+			out = append(out, e)
+			continue
+		case ev.MARK:
+			marked[string(e.B)] = true
+		case ev.REF:
+			if afterNode && !marked[string(e.B)] {
+				e = ev.Event{K: ev.NULL}
+				n++
+			}
+		}
+		afterNode = e.K == ev.NODE
+		out = append(out, e)
+	}
+	return out, n
+}
+
+// A resource ID becomes a *url.URL and is written back as url.String(): text that net/url parses but
+// spells differently (percent-escapes) comes back as url.Parse(text).String().
+func c06RespellRIDs(n *ev.Node) int {
+	count := 0
+	if n.Tag == "array" && strings.HasPrefix(n.Val, "rid:") {
+		if text, err := strconv.Unquote(n.Val[4:]); err == nil {
+			if u, err := url.Parse(text); err == nil && u.String() != text {
+				n.Val = fmt.Sprintf("rid:%q", u.String())
+				count++
+			}
+		}
+	}
+	for _, k := range n.Kids {
+		count += c06RespellRIDs(k)
+	}
+	return count
+}
+
+// A UID array becomes []types.UID, which is marshaled as a list of UIDs (no Go type is marshaled as a UID array).
+func c06UIDArraysAsLists(n *ev.Node) int {
+	count := 0
+	if n.Tag == "array" && strings.HasPrefix(n.Val, "uid:") {
+		parts := strings.SplitN(n.Val, ":", 3)
+		if len(parts) == 3 && len(parts[2])%32 == 0 {
+			n.Tag, n.Val, n.Kids = "list", "", nil
+			for i := 0; i < len(parts[2]); i += 32 {
+				n.Kids = append(n.Kids, &ev.Node{Tag: "uid", Val: parts[2][i : i+32]})
+			}
+			count++
+		}
+	}
+	for _, k := range n.Kids {
+		count += c06UIDArraysAsLists(k)
+	}
+	return count
+}
+
+// c06SortMaps re-establishes the canonical (unordered) map order after keys were rewritten.
+func c06SortMaps(n *ev.Node) {
+	for _, k := range n.Kids {
+		c06SortMaps(k)
+	}
+	if n.Tag == "map" {
+		sort.SliceStable(n.Kids, func(i, j int) bool { return n.Kids[i].String() < n.Kids[j].String() })
+	}
 }
